@@ -862,13 +862,13 @@ impl TrackerEngine {
     }
     fn random_runs(&self, thorough: bool) -> u64 {
         match (self.prop, thorough) {
-            ("C01", false) => 3000,
+            ("C01", false) => 4500,
             ("C01", true) => 150_000,
-            ("C02", false) => 3000,
+            ("C02", false) => 5000,
             ("C02", true) => 150_000,
             ("C03", false) => 2000,
             ("C03", true) => 100_000,
-            ("C04", false) => 1200,
+            ("C04", false) => 3000,
             ("C04", true) => 60_000,
             ("C05", false) => 1000,
             ("C05", true) => 50_000,
@@ -876,9 +876,9 @@ impl TrackerEngine {
             ("C06", true) => 50_000,
             ("C13", false) => 1500,
             ("C13", true) => 25_000,
-            ("C12", false) => 2000,
+            ("C12", false) => 4000,
             ("C12", true) => 100_000,
-            (_, false) => 1500,
+            (_, false) => 3000,
             (_, true) => 80_000,
         }
     }
